@@ -268,7 +268,8 @@ PROPS["C34"] = {
                    "its floor, ceiling and per-block rate; activity stays in range; DA record updates keep the same DA bounds.",
     "bounds": "one step; all u64/u128/i128/u16 field values; block capacity fixed to 30,000,000 in the quick tier (the fullness "
               "division only selects the direction); gas price factor 1 and 100; DA record: <= 2 recorded heights, recorded bytes 0 / 1000",
-    "outside": "da_change itself is replaced by its contract |change| <= price*percent/100 (not decided: 128-bit saturating multiply), "
+    "outside": "in the step harnesses da_change is replaced by its contract |change| <= price*percent/100; the contract itself is decided "
+               "on the real function for gas_price_factor = 1 only (c34_da_change_f1, ~10 min: 128-bit saturating multiply); "
                "the values of the P/D terms and of the reward/cost bookkeeping (cut to arbitrary values, so the bounds hold for any), "
                "the gas price service wrapper (tokio + storage)",
     "assumptions": ["gas_price_factor != 0 (NonZeroU64)", "chain_activity <= max_activity (established by L2ActivityTracker::new)"],
@@ -280,6 +281,7 @@ PROPS["C34"] = {
         H("c34_activity_cap30m", [_AU + "update_activity", "L2ActivityTracker::update", _AU + "da_change_accounting_for_activity"], "any updater, capacity 30,000,000", timeout={"quick": 1200, "thorough": 3600}),
         H("c34_da_record_f1_b1000", [_AU + "update_da_record_data", _AU + "da_block_update", _AU + "update_unrecorded_block_bytes"], "<= 2 heights, 1000 recorded bytes", cuts=_C34_CUTS, timeout={"quick": 1800, "thorough": 3600}),
         H("c34_da_record_f100_b0", [_AU + "update_da_record_data"], "<= 2 heights, 0 recorded bytes", cuts=_C34_CUTS, timeout={"quick": 1800, "thorough": 3600}),
+        H("c34_da_change_f1", [_AU + "da_change", _AU + "max_change"], "any updater with factor 1, any i128 P and D terms (the real clamp, no cut)", timeout={"quick": 2400, "thorough": 5400}, mem_gb=16),
         H("c34_l2_update_f1", [_AU + "update_l2_block_data"], "any updater, next height, capacity 30,000,000, factor 1", cuts=_C34_CUTS, tiers=("thorough",), timeout={"thorough": 7200}),
     ],
 }
@@ -334,7 +336,7 @@ PROPS["C42"] = {
                    "the real writer's memory effects (sequence+1, data half, data half, sequence+1), which a second harness "
                    "establishes from the real SeqLockWriter::write. Every interleaving of one read with <= 2 writes at the granularity "
                    "of atomic operations is decided.",
-    "bounds": "one read racing with 1 (w1) or 2 (w2) writes of distinct equal-halves values; the writer may have taken any number of "
+    "bounds": "instantiations T = (u64,u64) and T = (u32,u32); one read racing with 1 (w1) or 2 (w2) writes of distinct equal-halves values; the writer may have taken any number of "
               "steps before the read starts; 8 scheduling points with 0..=4 writer steps each, then the write in progress completes "
               "(fairness); reader loop unwound 9 times with the unwinding assertion on",
     "outside": "weak-memory reorderings (CBMC executes sequentially consistent; the Acquire/Release arguments are ignored), several "
@@ -345,6 +347,9 @@ PROPS["C42"] = {
         H("c42_writer_trace", [_SQ + "SeqLockWriter::write", _SQ + "SeqLock::new"], "any initial and written value",
           cuts=["Atomic<u64>::fetch_add -> performs the add and records it", "atomic::fence -> recorded", "panic::catch_unwind -> Ok(f()) (abort-on-panic model)"]),
         H("c42_reader_w1", [_SQ + "SeqLockReader::read"], "1 concurrent write, all schedules within the budget",
+          cuts=["Atomic<u64>::load -> environment writer steps, then the load", "atomic::fence, thread::yield_now -> environment writer steps"],
+          timeout={"quick": 1500, "thorough": 3600}),
+        H("c42_reader32_w1", [_SQ + "SeqLockReader::read"], "instantiation T = (u32, u32) (a value that fits in one machine word): 1 concurrent write",
           cuts=["Atomic<u64>::load -> environment writer steps, then the load", "atomic::fence, thread::yield_now -> environment writer steps"],
           timeout={"quick": 1500, "thorough": 3600}),
         H("c42_reader_w2", [_SQ + "SeqLockReader::read"], "2 concurrent writes, all schedules within the budget",
